@@ -8,24 +8,25 @@ script root, query preservation, convergence and meaning preservation.
 """
 from __future__ import annotations
 
-from harness.c03 import ALL_MAPS, MAPS, body_match, extra_checks, make_stubs  # noqa: F401
+from harness.c03 import ALIAS_MAPS, ALL_MAPS, EXTRA_MAPS, MAPS, MORE_MAPS, body_match, extra_checks, make_stubs  # noqa: F401
 
 PROPERTY = "C12"
 BOUNDS = {
-    "quick": {"path": "'/' + <= 5 solver characters (printable ASCII without % ? #), incl. leading '//host' forms", "maps": "8 redirecting maps incl. defaults (equal and wider), alias and per-method rules",
+    "quick": {"path": "'/' + <= 5 solver characters (printable ASCII without ? #; '%' stands for a percent sign sent as %25), incl. leading '//host' forms", "maps": "10 redirecting maps incl. defaults (equal and wider), alias rules (same shape and with extra defaults) and per-method rules",
               "script roots": ["/", "/app", "/app/"], "schemes": ["http", "https"]},
     "thorough": {"path": "<= 7 characters"},
 }
 STUBS = ["urllib.parse.quote: per-byte model, differentially tested at start-up"]
 ASSUMPTIONS = ["rule maps / script roots / schemes are enumerated", "paths are printable ASCII", "string query arguments ('q=1')"]
-OUTSIDE = ["redirect_to targets", "subdomains", "non-ASCII and percent characters", "mapping query arguments"]
+OUTSIDE = ["redirect_to targets", "subdomains", "non-ASCII characters", "mapping query arguments"]
 
 
 def obligations(tier, seed):
     out = []
     quick = tier == "quick"
     nm = len(MAPS)
-    for mi in (0, 2, 6, 8, nm, nm + 1, nm + 2, nm + 3):
+    na = nm + len(EXTRA_MAPS) + len(MORE_MAPS)
+    for mi in (0, 2, 6, 8, nm, nm + 1, nm + 2, nm + 3, na, na + 1):
         for script in ("/", "/app", "/app/"):
             for scheme in (("http", "https") if script == "/" else ("https",)):
                 for strict, merge in [(True, True), (True, False), (False, True)]:
@@ -33,7 +34,7 @@ def obligations(tier, seed):
                     for n in (range(0, 6) if quick else range(0, 8)):
                         out.append({"name": f"redirects[map={mi},script={script},{scheme},strict={strict},merge={merge},{method},n={n}]", "body": "body_match",
                                     "params": {"mi": mi, "order": 0, "strict": strict, "merge": merge, "n": n, "method": method,
-                                               "script": script, "scheme": scheme},
+                                               "script": script, "scheme": scheme, "pct": True},
                                     "opts": {"budget_s": 600 if quick else 3000, "ctx": {"max_cp": 0x7E, "bv_ints": True}},
                                     "witness": n == 2 and mi == 0 and script == "/app"})
     return out
